@@ -392,27 +392,36 @@ func ruleR15_6(w *World, r *Report) {
 		st  *ssa.Store
 	}
 	var apps []app
-	allInstrs(fn, func(ins ssa.Instruction) {
-		st, ok := ins.(*ssa.Store)
-		if !ok {
-			return
+	// the tables may be built by a helper of the method (`propagates, indexes := binaryImplications(...)`)
+	scanFns := []*ssa.Function{fn}
+	for _, ci := range callsIn(fn) {
+		if h := ci.Common().StaticCallee(); h != nil && w.PkgName(h) == "solver" && len(h.Blocks) > 0 && h != fn {
+			scanFns = append(scanFns, h)
 		}
-		ia, ok := st.Addr.(*ssa.IndexAddr)
-		if !ok {
-			return
-		}
-		c, ok := st.Val.(*ssa.Call)
-		if !ok {
-			return
-		}
-		if b, ok := c.Call.Value.(*ssa.Builtin); !ok || b.Name() != "append" {
-			return
-		}
-		if _, isMk := ia.X.(*ssa.MakeSlice); !isMk {
-			return
-		}
-		apps = append(apps, app{ia.X, ia.Index, st})
-	})
+	}
+	for _, sf := range scanFns {
+		allInstrs(sf, func(ins ssa.Instruction) {
+			st, ok := ins.(*ssa.Store)
+			if !ok {
+				return
+			}
+			ia, ok := st.Addr.(*ssa.IndexAddr)
+			if !ok {
+				return
+			}
+			c, ok := st.Val.(*ssa.Call)
+			if !ok {
+				return
+			}
+			if b, ok := c.Call.Value.(*ssa.Builtin); !ok || b.Name() != "append" {
+				return
+			}
+			if _, isMk := ia.X.(*ssa.MakeSlice); !isMk {
+				return
+			}
+			apps = append(apps, app{ia.X, ia.Index, st})
+		})
+	}
 	// tables that are paired at least once
 	paired := map[ssa.Value]ssa.Value{}
 	for _, a := range apps {
